@@ -252,6 +252,7 @@ def C15(ctx):
 
 def C16(ctx):
     progress.rules(ctx)
+    vyukov.reader_validation(ctx)
     queues.swing_cas_expected(ctx)
     queues.kfifo(ctx)
     ctx.only_skip = ("KF.aba", "KF.protocol", "OWN.")
